@@ -32,7 +32,11 @@
 // directly or through a package without derive calls that is not named on the command line; the package names
 // are drawn so that the path order often contradicts the import order.
 //
-// Output: DIR/scenarios.json, DIR/multi.json, DIR/stats.json. Every random choice comes from one rand.New(rand.NewSource(seed)).
+// Third family (DIR/moved.json, half as many): a module of two packages, each with a chain; in the second version
+// the declarations and calls of ./lib have moved into the root package and lib's only source file is deleted, its
+// derived.gen.go stays behind.
+//
+// Output: DIR/scenarios.json, DIR/multi.json, DIR/moved.json, DIR/stats.json. Every random choice comes from one rand.New(rand.NewSource(seed)).
 package main
 
 import (
@@ -1065,6 +1069,48 @@ func (g *gen) multi(id int) multi {
 	return m
 }
 
+// ---------------------------------------------------------------- a package that is left with nothing but its old derived.gen.go
+
+type moved struct {
+	ID      string  `json:"id"`
+	V1Root  version `json:"v1_root"` // package rg in the module root: the first chain
+	V1Lib   version `json:"v1_lib"`  // package lib in ./lib: the second chain
+	V2Root  version `json:"v2_root"` // both chains in the root package; ./lib has lost every source file
+	Depth   int     `json:"depth"`
+	Feature string  `json:"feature"`
+}
+
+// v1: two packages (module root and ./lib) with one chain of derive calls each. v2: the declarations and calls of
+// ./lib have moved into the root package and lib's only source file is gone — its derived.gen.go stays behind.
+// `goderive ./...` must remove it (no derive call remains there), leave the root's file as from scratch, and the
+// module must build.
+func (g *gen) moved(id int) moved {
+	for {
+		g.names = map[string]string{}
+		g.used = map[string]bool{}
+		g.feats = map[string]bool{}
+		g.wanted = nil
+		ch := choice{map[int]string{}, map[int]string{}, map[string]string{}, map[int]string{}}
+		c0 := g.chain(0, "a.go", 1+g.r.Intn(4), &ch, false)
+		c1 := g.chain(1, "lib.go", 1+g.r.Intn(4), &ch, false)
+		if c0.start == "mystery" || c1.start == "mystery" {
+			continue
+		}
+		v2 := instantiate(shape{files: []string{"a.go", "lib.go"}, chains: []chain{c0, c1}}, ch)
+		if len(v2.Declared) > 0 {
+			continue
+		}
+		root := instantiate(shape{files: []string{"a.go"}, chains: []chain{c0}}, ch)
+		lib := instantiate(shape{files: []string{"lib.go"}, chains: []chain{c1}}, ch)
+		lib.Files["lib.go"] = strings.Replace(lib.Files["lib.go"], "package rg\n", "package lib\n", 1)
+		d := len(c0.steps)
+		if len(c1.steps) > d {
+			d = len(c1.steps)
+		}
+		return moved{ID: fmt.Sprintf("v%d", id), V1Root: root, V1Lib: lib, V2Root: v2, Depth: d, Feature: "package-left-with-only-its-derived-file"}
+	}
+}
+
 func main() {
 	out := flag.String("out", "", "output directory")
 	seed := flag.Int64("seed", 1, "seed")
@@ -1124,6 +1170,12 @@ func main() {
 		}
 	}
 	write("scenarios.json", scs)
+	mv := []moved{}
+	for i := 0; i < (*nm+1)/2; i++ {
+		mv = append(mv, g.moved(i))
+	}
+	stats["moved"] = map[string]int{"scenarios": len(mv)}
 	write("multi.json", ms)
+	write("moved.json", mv)
 	write("stats.json", stats)
 }
